@@ -24,6 +24,9 @@ class Isotope:
                 node = ValueNode(node.token, str, node.padding)
             self._tree = node
             ZAID = node.value
+        # a jump (or anything that is not text) is not an isotope
+        if not isinstance(ZAID, str):
+            raise ValueError(f"ZAID: {ZAID} could not be parsed as a valid isotope")
         parts = ZAID.split(".")
         try:
             assert len(parts) <= 2
